@@ -11,6 +11,11 @@ Statements are about the faithful position model `Gmx.Model.Perp` (tied to the i
 by the stateful `perp` engine, whose harness additionally checks the ledger identity and the
 refined funding invariant after EVERY operation of its histories).
 
+Headline over whole-market histories (`PSys.wstep`: real deposit / withdraw / swap / clock / fee-state
+operations, no guarded `.market` replacement): `whole_ledger`, `run_preserves_ledger`,
+`step_preserves_MarketInv`, `run_preserves_MarketInv`, `run_indices_monotone` (below); `ledger_step`'s
+`.market m'` case is only a frame guard (`sameBookB && sameLedgerB`), superseded by `whole_ledger`.
+
 Proved here: the ledger step of an increase and of a decrease through EVERY collateral-processor
 branch, lifted to histories (`ledger_step_increase`, `ledger_step_decrease`, `ledger_step`,
 `ledger_history`) — which exposed a dust-level defect (F-C08b, `fee_dust_witness`); conservation
@@ -95,8 +100,8 @@ theorem ledger_step (W U : Nat) (c : PerpCfg) (s : PSys) (o : POp) :
       ((s.stepF W U c o).2.short = false → paid t = (s.stepF W U c o).2.fund t) ∧
       ((s.stepF W U c o).2.mixed = false → dust t = 0) := by
   have triv : ∀ s' : PSys, (∀ t, ledger s'.m t = ledger s.m t) →
-      ∃ paid dust : Bool → Nat, ∀ t, ledger s'.m t + ({} : Flow).out t + paid t = ledger s.m t + ({} : Flow).inn t + dust t ∧
-        paid t ≤ ({} : Flow).fund t ∧ (({} : Flow).short = false → paid t = ({} : Flow).fund t) ∧ (({} : Flow).mixed = false → dust t = 0) :=
+      ∃ paid dust : Bool → Nat, ∀ t, ledger s'.m t + ({} : Perp.Flow).out t + paid t = ledger s.m t + ({} : Perp.Flow).inn t + dust t ∧
+        paid t ≤ ({} : Perp.Flow).fund t ∧ (({} : Perp.Flow).short = false → paid t = ({} : Perp.Flow).fund t) ∧ (({} : Perp.Flow).mixed = false → dust t = 0) :=
     fun s' hs => ⟨fun _ => 0, fun _ => 0, fun t => ⟨by simp [hs t], Nat.le_refl _, fun _ => rfl, fun _ => rfl⟩⟩
   cases o with
   | openPos il cl => simpa [PSys.stepF] using triv { s with ps := s.ps ++ [{ isLong := il, collLong := cl }] } (fun _ => rfl)
@@ -171,7 +176,7 @@ theorem ledger_history (W U : Nat) (c : PerpCfg) (ops : List POp) : ∀ s : PSys
     refine ⟨fun t => p1 t + p2 t, fun t => d1 t + d2 t, fun t => ?_⟩
     obtain ⟨a1, a2, a3, a4⟩ := h1 t
     obtain ⟨b1, b2, b3, b4⟩ := h2 t
-    simp only [PSys.runF, Flow.add]
+    simp only [PSys.runF, Perp.Flow.add]
     refine ⟨by omega, by omega, ?_, ?_⟩
     · intro hs
       simp only [Bool.or_eq_false_iff] at hs
@@ -431,7 +436,7 @@ theorem whole_ledger (W U : Nat) (c : PerpCfg) (rc : RateCfg) (s : PSys) (o : WO
       paid t ≤ (s.wstepF W U c rc o).2.fund t ∧
       ((s.wstepF W U c rc o).2.short = false → paid t = (s.wstepF W U c rc o).2.fund t) ∧
       ((s.wstepF W U c rc o).2.mixed = false → dust t = 0) := by
-  have plain : ∀ (s' : PSys) (f : Flow), f.fund = (fun _ => 0) → (∀ t, ledger s'.m t + f.out t = ledger s.m t + f.inn t) →
+  have plain : ∀ (s' : PSys) (f : Perp.Flow), f.fund = (fun _ => 0) → (∀ t, ledger s'.m t + f.out t = ledger s.m t + f.inn t) →
       ∃ paid dust : Bool → Nat, ∀ t, ledger s'.m t + f.out t + paid t = ledger s.m t + f.inn t + dust t ∧
         paid t ≤ f.fund t ∧ (f.short = false → paid t = f.fund t) ∧ (f.mixed = false → dust t = 0) := by
     intro s' f hf hl
@@ -445,13 +450,13 @@ theorem whole_ledger (W U : Nat) (c : PerpCfg) (rc : RateCfg) (s : PSys) (o : WO
   have viaMap : ∀ o', ((∃ n, o' = WOp.tick n) ∨ (∃ pr, o' = WOp.updFunding pr) ∨ (∃ pr, o' = WOp.updBorrowing pr) ∨ o' = WOp.distribute ∨
       (∃ a b, o' = WOp.openPos a b)) →
       ∃ paid dust : Bool → Nat, ∀ t,
-        ledger (match (wMarketOp W U rc s.m o').map (fun m' => (m', ({} : Flow))) with | some (m', _) => ({ s with m := m' } : PSys) | none => s).m t +
-          (match (wMarketOp W U rc s.m o').map (fun m' => (m', ({} : Flow))) with | some (_, f) => f | none => {}).out t + paid t
-          = ledger s.m t + (match (wMarketOp W U rc s.m o').map (fun m' => (m', ({} : Flow))) with | some (_, f) => f | none => {}).inn t + dust t ∧
-        paid t ≤ (match (wMarketOp W U rc s.m o').map (fun m' => (m', ({} : Flow))) with | some (_, f) => f | none => {}).fund t ∧
-        ((match (wMarketOp W U rc s.m o').map (fun m' => (m', ({} : Flow))) with | some (_, f) => f | none => {}).short = false →
-          paid t = (match (wMarketOp W U rc s.m o').map (fun m' => (m', ({} : Flow))) with | some (_, f) => f | none => {}).fund t) ∧
-        ((match (wMarketOp W U rc s.m o').map (fun m' => (m', ({} : Flow))) with | some (_, f) => f | none => {}).mixed = false → dust t = 0) := by
+        ledger (match (wMarketOp W U rc s.m o').map (fun m' => (m', ({} : Perp.Flow))) with | some (m', _) => ({ s with m := m' } : PSys) | none => s).m t +
+          (match (wMarketOp W U rc s.m o').map (fun m' => (m', ({} : Perp.Flow))) with | some (_, f) => f | none => {}).out t + paid t
+          = ledger s.m t + (match (wMarketOp W U rc s.m o').map (fun m' => (m', ({} : Perp.Flow))) with | some (_, f) => f | none => {}).inn t + dust t ∧
+        paid t ≤ (match (wMarketOp W U rc s.m o').map (fun m' => (m', ({} : Perp.Flow))) with | some (_, f) => f | none => {}).fund t ∧
+        ((match (wMarketOp W U rc s.m o').map (fun m' => (m', ({} : Perp.Flow))) with | some (_, f) => f | none => {}).short = false →
+          paid t = (match (wMarketOp W U rc s.m o').map (fun m' => (m', ({} : Perp.Flow))) with | some (_, f) => f | none => {}).fund t) ∧
+        ((match (wMarketOp W U rc s.m o').map (fun m' => (m', ({} : Perp.Flow))) with | some (_, f) => f | none => {}).mixed = false → dust t = 0) := by
     intro o' ho
     cases hm : wMarketOp W U rc s.m o' with
     | none => exact plain s {} rfl (fun _ => rfl)
@@ -538,7 +543,7 @@ theorem run_preserves_ledger (W U : Nat) (c : PerpCfg) (rc : RateCfg) (ops : Lis
     refine ⟨fun t => p1 t + p2 t, fun t => d1 t + d2 t, fun t => ?_⟩
     obtain ⟨a1, a2, a3, a4⟩ := h1 t
     obtain ⟨b1, b2, b3, b4⟩ := h2 t
-    simp only [PSys.wrunF, Flow.add]
+    simp only [PSys.wrunF, Perp.Flow.add]
     refine ⟨by omega, by omega, ?_, ?_⟩
     · intro hs
       simp only [Bool.or_eq_false_iff] at hs
@@ -547,16 +552,24 @@ theorem run_preserves_ledger (W U : Nat) (c : PerpCfg) (rc : RateCfg) (ops : Lis
       simp only [Bool.or_eq_false_iff] at hm
       rw [a4 hm.1, b4 hm.2]
 
-/-! ### pieces of `psys_simulates_fundsys` (round 3b)
+/-! ### pieces of `psys_simulates_fundsys`
 
-The three identifications between the faithful model and the `FundSys` abstraction of
-`funding_backed`. Still missing for the composition (`psys_simulates_fundsys` proper): the
-projection `fproj k : PSys → FundSys` with ghost `collected` / `claimed`, `fproj_update` (assemble
-the three theorems below through `marketUpdateFunding` / `C12.indices_monotone`), `fproj_settle`
-(the reports of `increase` / `decrease` carry the `positionFees` of the pre-state:
-`processCollateral` keeps `claimL` / `claimS`, as `processCollateral_fund` shows for `fundAmount`;
-the snapshots after the operation are the market's indices), and the induction over `PSys.wrun`
-excluding steps with `fundingShort`. -/
+Every numeric identification between the faithful model and the `FundSys` abstraction of
+`funding_backed` is proved below: the funding update (`funding_update_is_fundsys_update`, with
+`funding_oi_is_sum_of_positions` under `MarketInv`), what `increase` / `decrease` charge and credit
+(`increase_is_fundsys_settle`, `decrease_is_fundsys_settle`: the report's funding fee and claimable
+amounts are the pending amounts for the OLD size; `position_fees_are_fundsys_settle`), and the
+snapshot refresh (`increase_refreshes_snapshots`, `decrease_refreshes_snapshots`).
+STILL MISSING — the list-level composition only: a projection `fproj k : PSys → FundSys` (per
+collateral token `k`, with ghost `collected` / `claimed` summed from the reports) and
+`fproj k (s.wstep o) = (fproj k s).step (op)` for successful steps without `fundingShort`. Two
+details make the literal `FundSys` unsuitable as the image and must be adjusted first: `settle`
+refreshes `f` also for positions whose collateral is not `k` (the model refreshes the position's
+own-collateral snapshot) and `openPos` starts with snapshots = indices (the model starts at 0 and
+synchronises at the first increase) — both irrelevant to `FundSys.Inv` (`f` is read only for
+`hasCollK`, and size 0 makes the snapshot irrelevant) but they break state EQUALITY. Until then
+`funding_backed` is a theorem about the abstraction; over faithful histories the invariant is
+checked by the harness oracle after every step (bins `c08`, `whole`). -/
 
 /-- a funding update moves, per collateral token, exactly what `FundSys.update` moves. -/
 theorem funding_update_is_fundsys_update {W U adj : Nat} {p : FundingParams} {st : FundingState} {dur pl ps : Nat}
@@ -579,6 +592,40 @@ theorem position_fees_are_fundsys_settle {W U : Nat} {m : Market} {c : PerpCfg} 
     unpackFunding W U m.cfg.fundingAdjustment (cfapsPool m p.isLong).long p.cIdxL p.sizeUsd false = some f.claimL ∧
     unpackFunding W U m.cfg.fundingAdjustment (cfapsPool m p.isLong).short p.cIdxS p.sizeUsd false = some f.claimS :=
   Lem.positionFees_funding h
+
+/-- a decrease charges and credits exactly what `FundSys.settle` pays and claims (pre-state
+indices, snapshots and size). -/
+theorem decrease_is_fundsys_settle {W U : Nat} {m m' : Market} {c : PerpCfg} {pr : Prices} {p p' : Pos} {sd0 wd : Nat}
+    {fl : DecreaseFlags} {r : DecreaseReport} (h : decrease W U m c pr p sd0 wd fl = .ok (m', p', r)) :
+    unpackFunding W U m.cfg.fundingAdjustment ((fapsPool m p.isLong).amount p.collLong) p.fIdx p.sizeUsd true = some r.fees.fundAmount ∧
+    unpackFunding W U m.cfg.fundingAdjustment (cfapsPool m p.isLong).long p.cIdxL p.sizeUsd false = some r.fees.claimL ∧
+    unpackFunding W U m.cfg.fundingAdjustment (cfapsPool m p.isLong).short p.cIdxS p.sizeUsd false = some r.fees.claimS :=
+  Lem.decrease_is_settle h
+
+/-- an increase charges and credits exactly what `FundSys.settle` pays and claims, on the
+initialised position (an empty position is first synchronised, so it pays and claims nothing). -/
+theorem increase_is_fundsys_settle {W U : Nat} {m m' : Market} {c : PerpCfg} {pr : Prices} {p0 p' : Pos} {ci sd : Nat}
+    {r : IncreaseReport} (h : increase W U m c pr p0 ci sd = .ok (m', p', r)) :
+    unpackFunding W U m.cfg.fundingAdjustment ((fapsPool m p0.isLong).amount p0.collLong) (initIfEmpty p0 m).fIdx p0.sizeUsd true = some r.fees.fundAmount ∧
+    unpackFunding W U m.cfg.fundingAdjustment (cfapsPool m p0.isLong).long (initIfEmpty p0 m).cIdxL p0.sizeUsd false = some r.fees.claimL ∧
+    unpackFunding W U m.cfg.fundingAdjustment (cfapsPool m p0.isLong).short (initIfEmpty p0 m).cIdxS p0.sizeUsd false = some r.fees.claimS :=
+  Lem.increase_is_settle h
+
+/-- after a decrease the position's funding snapshots equal the market's indices (also for a
+collateral-only decrease, size delta 0 — seeded change C08-2 is the negation of the increase
+counterpart). -/
+theorem decrease_refreshes_snapshots {W U : Nat} {m m' : Market} {c : PerpCfg} {pr : Prices} {p p' : Pos} {sd0 wd : Nat}
+    {fl : DecreaseFlags} {r : DecreaseReport} (h : decrease W U m c pr p sd0 wd fl = .ok (m', p', r)) :
+    p'.fIdx = (fapsPool m p.isLong).amount p.collLong ∧ p'.cIdxL = (cfapsPool m p.isLong).long ∧
+    p'.cIdxS = (cfapsPool m p.isLong).short :=
+  Lem.decrease_snap h
+
+/-- after an increase (any size delta, including 0) the snapshots equal the indices. -/
+theorem increase_refreshes_snapshots {W U : Nat} {m m' : Market} {c : PerpCfg} {pr : Prices} {p p' : Pos} {ci sd : Nat}
+    {r : IncreaseReport} (h : increaseCore W U m c pr p ci sd = .ok (m', p', r)) :
+    p'.fIdx = (fapsPool m p.isLong).amount p.collLong ∧ p'.cIdxL = (cfapsPool m p.isLong).long ∧
+    p'.cIdxS = (cfapsPool m p.isLong).short :=
+  Lem.increaseCore_snap h
 
 /-- under `MarketInv` the open interest the funding update reads is Σ positions (`oiPayK`, `oiSide`). -/
 theorem funding_oi_is_sum_of_positions {U : Nat} {s : PSys} (h : MarketInv U s) (il cl : Bool) :
@@ -625,7 +672,7 @@ example : (FundSys.init.run 64 (10 ^ 9) 10000 [.openPos true true, .openPos fals
 decrease withdrawing 10⁹, full close at a profit paid in LONG tokens — a mixed-token decrease):
 `[ledger before, after, tokens in, tokens out]` for the short token and for the long token;
 `10¹⁴ + 3·10⁹ = 100 000 400 000 000 + 2.6·10⁹` and `10¹² = 999 990 909 091 + 9 090 909`. -/
-example : (fun x : PSys × Flow => ([ledger x.1.m false, x.2.inn false, x.2.out false, ledger x.1.m true, x.2.inn true, x.2.out true,
+example : (fun x : PSys × Perp.Flow => ([ledger x.1.m false, x.2.inn false, x.2.out false, ledger x.1.m true, x.2.inn true, x.2.out true,
       x.2.fund false], x.2.short, x.2.mixed))
     ((PSys.mk { cfg := wCfg, primary := ⟨10 ^ 12, 10 ^ 14⟩ } []).runF 64 (10 ^ 9) wPerp
       [.openPos true false, .inc 0 (3 * 10 ^ 9) (20 * 10 ^ 9) wPrices, .dec 0 (10 * 10 ^ 9) (10 ^ 9) {} wPrices,
@@ -639,7 +686,7 @@ increase that collects the short's claimable funding. Positions `(size, tokens, 
 indices, `[ledger long, ledger short, in long, in short, out long, out short, funding collected (short token)]`:
 `1 000 000 095 000 + 5 000 = 0 + 1 000 000 100 000` and
 `100 005 979 131 999 + 10 500 001 + 10 368 000 = 0 + 100 006 000 000 000`. -/
-example : (fun x : PSys × Flow => (x.1.ps.map (fun p => (p.sizeUsd, p.sizeTokens, p.collateral)), x.1.m.supply, x.1.m.fapsL.short,
+example : (fun x : PSys × Perp.Flow => (x.1.ps.map (fun p => (p.sizeUsd, p.sizeTokens, p.collateral)), x.1.m.supply, x.1.m.fapsL.short,
       x.1.m.cfapsS.short, [ledger x.1.m true, ledger x.1.m false, x.2.inn true, x.2.inn false, x.2.out true, x.2.out false, x.2.fund false]))
     ((PSys.mk { cfg := wCfg } []).wrunF 64 (10 ^ 9) wPerp ⟨⟨10 ^ 9, 20, 0, 0, 10, 0, 0, 0⟩, ⟨true, 10 ^ 9, true⟩, ⟨10 ^ 9, 10, 0, 0, 0, 10 ^ 18⟩, ⟨10 ^ 9, 10, 0, 0, 0, 10 ^ 18⟩⟩
       [.deposit (10 ^ 12) (10 ^ 14) wPrices, .openPos true false, .inc 0 (3 * 10 ^ 9) (20 * 10 ^ 9) wPrices,
